@@ -882,7 +882,11 @@ spifconf_open_file(spif_charptr_t name)
     }
 
     /* Check version number against current application version. */
-    begin_ptr = SPIF_STR_STR(ver_str) + spif_str_index(ver_str, (spif_char_t) '-') + 1;
+    begin_ptr = SPIF_STR_STR(ver_str) + spif_str_index(ver_str, (spif_char_t) '-');
+    if (*begin_ptr) {
+        /* Skip the dash.  A program name too long for the test string does not guarantee one. */
+        begin_ptr++;
+    }
     end_ptr = SPIF_STR_STR(ver_str) + spif_str_index(ver_str, (spif_char_t) '>');
     D_CONF(("Begin pointer is %10p (%s), end pointer is %10p (%s), length is %d, buffer size is %d\n",
             begin_ptr, begin_ptr, end_ptr, end_ptr, (int) (end_ptr - begin_ptr), sizeof(buff)));
